@@ -54,6 +54,7 @@ class CisLink:
     cig_id: int
     acl_connection: Connection | None = None
     data_paths: set[int] = dataclasses.field(default_factory=set)
+    established: bool = False
 
 
 # -----------------------------------------------------------------------------
@@ -764,6 +765,16 @@ class Controller:
         advertiser.stop()
 
     def on_le_disconnected(self, connection: Connection, reason: int) -> None:
+        # The CIS links that use this connection go with it: a CIS that was still
+        # being created is concluded with an error.
+        for cis_link in list(self.central_cis_links.values()):
+            if cis_link.acl_connection is connection:
+                if cis_link.established:
+                    cis_link.established = False
+                    cis_link.acl_connection = None
+                else:
+                    self.on_le_cis_establishment_failed(cis_link, reason)
+
         # Send a disconnection complete event
         self.send_hci_packet(
             hci.HCI_Disconnection_Complete_Event(
@@ -985,12 +996,39 @@ class Controller:
             )
             if cis_link.cis_id == cis_id and cis_link.cig_id == cig_id
         )
+        cis_link.established = True
 
         self.send_hci_packet(
             hci.HCI_LE_CIS_Established_Event(
                 status=hci.HCI_ErrorCode.SUCCESS,
                 connection_handle=cis_link.handle,
                 # CIS parameters are ignored.
+                cig_sync_delay=0,
+                cis_sync_delay=0,
+                transport_latency_c_to_p=0,
+                transport_latency_p_to_c=0,
+                phy_c_to_p=1,
+                phy_p_to_c=1,
+                nse=0,
+                bn_c_to_p=0,
+                bn_p_to_c=0,
+                ft_c_to_p=0,
+                ft_p_to_c=0,
+                max_pdu_c_to_p=0,
+                max_pdu_p_to_c=0,
+                iso_interval=0,
+            )
+        )
+
+    def on_le_cis_establishment_failed(self, cis_link: CisLink, status: int) -> None:
+        '''
+        Called when the creation of a CIS ends without the CIS being established.
+        '''
+        cis_link.acl_connection = None
+        self.send_hci_packet(
+            hci.HCI_LE_CIS_Established_Event(
+                status=status,
+                connection_handle=cis_link.handle,
                 cig_sync_delay=0,
                 cis_sync_delay=0,
                 transport_latency_c_to_p=0,
@@ -1032,6 +1070,12 @@ class Controller:
             None,
         ):
             # Keep central CIS on disconnection. They should be removed by hci.HCI_LE_Remove_CIG_Command.
+            if not cis_link.established:
+                # The creation of the CIS is cancelled: conclude it
+                self.on_le_cis_establishment_failed(
+                    cis_link, hci.HCI_ErrorCode.OPERATION_CANCELLED_BY_HOST_ERROR
+                )
+            cis_link.established = False
             cis_link.acl_connection = None
         else:
             return
@@ -2890,6 +2934,7 @@ class Controller:
                 return
 
             cis_link.acl_connection = connection
+            cis_link.established = False
 
             connection.send_ll_control_pdu(
                 ll.CisReq(cig_id=cis_link.cig_id, cis_id=cis_link.cis_id)
